@@ -44,10 +44,10 @@ class PString(TString):
         r = rng.random()
         if r < 0.25:
             # the other quote character (only one kind per value, except rarely: listed known finding path-both-quotes)
-            q = '"' if "'" in s else rng.choice("'\"")
+            q = "'" if "'" in s else rng.choice("'\"")
             k = rng.randrange(len(s) + 1)
             s = s[:k] + q + s[k:]
-        elif r < 0.28:
+        elif r < 0.265:
             s += "'\""
         return s
 
@@ -60,7 +60,9 @@ class PInt(TInt):
         r = rng.random()
         if r < 0.4 and n >= 0:
             return "+" + v
-        if r < 0.8:
+        if r < 0.8 and fmt != "j":
+            # (not in JSON: a 64-bit integer written as a JSON string with a leading zero is read as an OCTAL number by
+            # libyang - reported separately, it is a defect of value parsing, not of paths)
             return ("-" if n < 0 else "") + "00" + str(abs(n))
         return v
 
@@ -129,9 +131,9 @@ class TInstId(yanggen.Type):
         return rng.choice(self.targets)[0] if self.targets else "/m1:base-target"
 
     def lexical(self, rng, v, fmt):
-        # XML: every node name carries a prefix (RFC 7950 9.13.2); JSON: either spelling
+        # XML: every node name carries a prefix (RFC 7950 9.13.2); JSON: prefix exactly where the module changes (RFC 7951 6.11)
         for c, full in self.targets:
-            if c == v and (fmt == "x" or rng.random() < 0.6):
+            if c == v and fmt == "x":
                 return full
         return v
 
@@ -312,13 +314,32 @@ class PGen(yanggen.SchemaGen):
         nkeys = 0 if keyless else rng.choice([1, 1, 2, 2, 3])
         keys, children = [], []
         for _ in range(nkeys):
-            k = SLeaf(self.nm("k"), self.ptype(), config=cfg)
+            k = SLeaf(self.key_name(keys), self.ptype(), config=cfg)
             keys.append(k.name)
             children.append(k)
         children += self.nodes(depth - 1, cfg, count=rng.randrange(1, 4))
         if self.key_shuffle and len(keys) > 1:
             rng.shuffle(keys)
         return SList(self.nm("l"), keys, children, userord=(self.userord and bool(keys) and rng.random() < 0.35), config=cfg)
+
+    def key_name(self, keys):
+        """key names of one list are often a family: one a proper prefix of another, continued by any identifier character"""
+        rng = self.rng
+        if keys and self.names is not None and rng.random() < 0.5:
+            base = rng.choice(keys)[:40]
+            for _ in range(8):
+                r = rng.random()
+                if r < 0.2:
+                    c = rng.choice([base.upper(), base.lower(), base.swapcase(), base.capitalize()])
+                elif r < 0.7 or len(base) < 2:
+                    c = base + rng.choice(yanggen.AdvNames.CONT)
+                else:
+                    c = base[:rng.randrange(1, len(base))]
+                if c not in self.names.used and (c[0].isalpha() or c[0] == "_") and not c.lower().startswith("xml"):
+                    self.names.used.add(c)
+                    self.n += 1
+                    return c
+        return self.nm("k")
 
     def op_nodes(self, depth=2, count=None):
         saved = self.state, self.in_op
@@ -346,8 +367,8 @@ def gen_schema(rng, adv_names=True, two_modules=True):
     pool = yanggen.AdvNames() if adv_names else None
     g = PGen(rng, two_modules=two_modules, names=pool, key_shuffle=True)
     nodes = g.nodes(3, count=rng.randrange(2, 5))
-    if rng.random() < 0.7:
-        nodes.append(SContainer(g.nm("c"), g.nodes(2, False), presence=rng.random() < 0.3, config=False))
+    if rng.random() < 0.85:
+        nodes.append(SContainer(g.nm("c"), g.nodes(2, False, count=rng.randrange(2, 6)), presence=rng.random() < 0.3, config=False))
     # nested actions / notifications (not below a key-less list, RFC 7950 7.15 / 7.16)
     def place(lst, anc, keyless_above):
         for n in list(lst):
@@ -366,6 +387,7 @@ def gen_schema(rng, adv_names=True, two_modules=True):
     place(nodes, [], False)
     rpcs = [SOp(g.nm("rpc"), "rpc", g.op_nodes(), g.op_nodes()) for _ in range(rng.randrange(1, 3))]
     notifs = [SNotif(g.nm("ntf"), g.op_nodes()) for _ in range(rng.randrange(1, 3))]
+    nodes.append(SLeaf("base-target", TString(length=(1, 5))))
     m1 = PModule("m1", nodes + rpcs + notifs, identities=[("base-id", None)] + [(n, "base-id") for m, n in IDENTS if m == "m1"],
                  annotations=[])
     for n in swalk(m1.nodes):
@@ -373,7 +395,15 @@ def gen_schema(rng, adv_names=True, two_modules=True):
     mods = [m1]
     if two_modules:
         # second module: same local names, augments data nodes, RPC input/output and notifications of the first
-        cands = [(n, what, lst) for n in swalk(m1.nodes) for what, lst in schildren(n)]
+        def data_parent(x):
+            x = x.parent
+            while x is not None and x.kind == "choice":
+                x = x.parent
+            return x
+        # (not the cases of a top-level choice: libyang cannot parse top-level data nodes that another module adds to a
+        # choice of this module - "Node not found in the module" - reported separately, it is not a defect of paths)
+        cands = [(n, what, lst) for n in swalk(m1.nodes) for what, lst in schildren(n)
+                 if not (n.kind == "choice" and data_parent(n) is None)]
         rng.shuffle(cands)
         augs = []
         g2names = None
@@ -487,6 +517,16 @@ def inject_dups(rng, forest):
                 g.append(c)
 
 
+def keys_first(forest):
+    """list entries: key leaves first, in the order of the key statement (RFC 7950 7.8.5)"""
+    for n, _, _ in walk3(forest):
+        s = n.schema
+        if s.kind == "list" and s.keys:
+            ks = [c for c in n.children if c.schema.kind == "leaf" and c.schema.is_key and c.schema.module is s.module]
+            ks.sort(key=lambda c: s.keys.index(c.schema.name))
+            n.children[:] = ks + [c for c in n.children if not any(c is k for k in ks)]
+
+
 def respell(rng, forest, fmt):
     for n, _, _ in walk3(forest):
         if n.value is not None:
@@ -533,8 +573,7 @@ def fill_targets(rng, ig, nodes, targets):
             if s.kind in ("container", "list") and depth > 0:
                 rec(s.children, parents + ((d, [d]),), depth - 1)
     rec(nodes, (), 2)
-    if not targets:
-        targets.append(("/m1:base-target", "/m1:base-target"))
+    targets.append(("/m1:base-target", "/m1:base-target"))
 
 
 def op_instances(rng, ig, nodes):
@@ -679,6 +718,7 @@ def make_case(rng, adv_names=True, two_modules=True, max_inst=3, name="pathsops"
     info = []
     for typ, forest in docs:
         inject_dups(rng, forest)
+        keys_first(forest)
         nn = count_nodes(forest)
         if nn == 0 or nn > 150:
             continue
@@ -713,7 +753,7 @@ class PathsOps(Oracle):
 
     def gen(self, rng, tier, scale=1.0):
         L = []
-        for i in range(self.n(tier, 260, 8000, scale)):
+        for i in range(self.n(tier, 1500, 20000, scale)):
             line, info = make_case(rng, adv_names=(i % 5 != 0), two_modules=(i % 3 != 0), max_inst=3 if i % 2 else 2)
             if line is None:
                 continue
@@ -754,6 +794,8 @@ class PathsOps(Oracle):
                 if not inf["both"]:
                     return (None, "%s: driver skipped %s nodes for both quote characters but no such value was generated" % (what, f[2]))
                 known = ("path-both-quotes", "%s: %s nodes whose path needs a value holding both quote characters" % (what, f[2]))
+            if len(f) > 5 and int(f[5]):
+                known = known or ("xpath-noprefix-other-module", "%s: %s nodes; e.g. see the replay of the finding" % (what, f[5]))
             got = sorted(untext(h) for h in f[4].split(",")) if f[4] else []
             if got != inf["paths"]:
                 only_got = [p for p in got if p not in inf["paths"]]
